@@ -174,7 +174,8 @@ Fixpoint steps_upto (ab : AB) (h : N) {struct ab} : list N :=
   | PrefixAB hz s => prefix_steps_upto hz s h
   | Propagated J ab' =>
       take_while (fun x => x <=? h)
-        (1 :: map (fun x => x - J) (filter (fun x => J + 1 <? x) (steps_upto ab' (h + J))))
+        ((if 0 <? na ab' (1 + J) then [1] else [])
+           ++ map (fun x => x - J) (filter (fun x => J + 1 <? x) (steps_upto ab' (h + J))))
   | SumAB l => dedup (kmerge (map (fun a => steps_upto a h) l))
   end.
 
